@@ -1,42 +1,47 @@
 #!/usr/bin/env python3
 """reseed.py [name-prefix...]: re-run, against every stored seeded change (seeded/<name>/patch.diff), the
-checks that caught it (meta.json caught_by, else its own property); /repo must be clean; each patch is
-applied with git apply and undone with git checkout.  Prints which are still caught and updates
-meta.json["recheck"]."""
+checks that caught it (meta.json caught_by, else its own property).  Each patch is applied in ONE scratch
+worktree of /repo's HEAD (outside /repo and /verif) that the checks are pointed at through VERIF_REPO;
+/repo itself is not touched.  Paths are relative to this checkout (works in a `vp run` snapshot).
+Prints which changes are still caught; exit 1 if one is lost.  (meta.json is updated only with --write.)"""
 import json, os, subprocess, sys, glob, time
+ROOT = os.path.dirname(os.path.dirname(os.path.abspath(__file__)))
 ENV = dict(os.environ, GOFLAGS="-mod=mod", GOPROXY="off", GOSUMDB="off", GOTOOLCHAIN="local")
-def sh(cmd, cwd=None):
-    p = subprocess.run(cmd, cwd=cwd, env=ENV, stdout=subprocess.PIPE, stderr=subprocess.STDOUT, text=True)
+def sh(cmd, cwd=None, env=None):
+    p = subprocess.run(cmd, cwd=cwd, env=env or ENV, stdout=subprocess.PIPE, stderr=subprocess.STDOUT, text=True)
     return p.returncode, p.stdout
 def main():
-    pref = sys.argv[1:]
-    rc, out = sh(["git", "-C", "/repo", "status", "--porcelain"])
-    if out.strip():
-        print("/repo not clean"); return 2
+    args = [a for a in sys.argv[1:] if not a.startswith("--")]
+    write = "--write" in sys.argv
+    wt = "/tmp/wt/reseed_%d" % os.getpid()
+    sh(["git", "-C", "/repo", "worktree", "add", "-q", "--detach", wt, "HEAD"])
+    env = dict(ENV, VERIF_REPO=wt)
     lost = []
-    for d in sorted(glob.glob("/verif/seeded/*/")):
-        name = os.path.basename(d.rstrip("/"))
-        if pref and not any(name.startswith(p) for p in pref):
-            continue
-        meta = json.load(open(d + "meta.json"))
-        checks = meta.get("caught_by") or [meta["property"]]
-        rc, out = sh(["git", "-C", "/repo", "apply", d + "patch.diff"])
-        if rc != 0:
-            print(name, "PATCH DOES NOT APPLY"); continue
-        caught = []
-        try:
+    try:
+        for d in sorted(glob.glob(os.path.join(ROOT, "seeded", "*", ""))):
+            name = os.path.basename(d.rstrip("/"))
+            if args and not any(name.startswith(p) for p in args):
+                continue
+            meta = json.load(open(d + "meta.json"))
+            checks = meta.get("caught_by") or [meta["property"]]
+            sh(["git", "checkout", "--", "."], cwd=wt)
+            rc, out = sh(["git", "apply", d + "patch.diff"], cwd=wt)
+            if rc != 0:
+                print(name, "PATCH DOES NOT APPLY", flush=True); lost.append(name); continue
+            caught = []
             for c in checks:
-                rc, out = sh(["/verif/check", c, "--tier", "quick"], cwd="/verif")
+                rc, out = sh([os.path.join(ROOT, "check"), c, "--tier", "quick"], cwd=ROOT, env=env)
                 if rc != 0 and "VIOLATION" in out:
                     caught.append(c)
                     break
-        finally:
-            sh(["git", "-C", "/repo", "checkout", "--", "."])
-        meta["recheck"] = {"when": time.strftime("%Y-%m-%d %H:%M"), "still_caught_by": caught}
-        json.dump(meta, open(d + "meta.json", "w"), indent=1)
-        print(name, "caught by", caught if caught else "NOTHING")
-        if not caught:
-            lost.append(name)
-    print("LOST:", lost)
+            if write:
+                meta["recheck"] = {"when": time.strftime("%Y-%m-%d %H:%M"), "still_caught_by": caught}
+                json.dump(meta, open(d + "meta.json", "w"), indent=1)
+            print(name, "caught by", caught if caught else "NOTHING", flush=True)
+            if not caught:
+                lost.append(name)
+    finally:
+        sh(["git", "-C", "/repo", "worktree", "remove", "--force", wt])
+    print("LOST:", lost, flush=True)
     return 1 if lost else 0
 sys.exit(main())
